@@ -181,6 +181,8 @@ class Context(object):
         self.exhaustive = False
         self.t0 = time.time()
         self.ctx_seen = {}
+        self.documented = set()
+        self.pending_redef = []
         self.ctx_frozen = {}
         self.freeze = os.environ.get('FLOWLINT_FREEZE')
         try:
@@ -215,8 +217,8 @@ class Context(object):
                 ((' and ' if extra else '') + 'no longer depends on: ' + ' & '.join(missing)) if missing else '')
         self.ob('CONTEXT', 'runs exactly when documented: %s' % inst, ok, fn.mod, st, fn.qual, detail=detail, key='%s|%s' % (rule, inst))
 
-    def context_returns(self, fn, rule, tables):
-        k = self._ctx_key(fn.qual, rule, '<returns>')
+    def context_returns(self, fn, rule, tables, what='<returns>', inst='the function returns under the documented conditions only'):
+        k = self._ctx_key(fn.qual, rule, what)
         got = {r: {c: len(v) for c, v in t.items()} for r, t in tables.items()}
         if self.freeze:
             self.ctx_frozen[k] = got
@@ -225,16 +227,15 @@ class Context(object):
             raise AnchorError('no recorded return contexts for %s (flowlint/contexts.json is stale: tools/freeze_contexts.py)' % k)
         want = self.ctx_table[k]
         if any(got[r] == want.get(r) for r in got):
-            self.ob('CONTEXT', 'the function returns under the documented conditions only', True, fn.mod, fn.ast, fn.qual,
-                    key='%s|returns' % rule)
+            self.ob('CONTEXT', inst, True, fn.mod, fn.ast, fn.qual, key='%s|%s' % (rule, what))
             return
         r = 'as written'
         for c in sorted(set(got[r]) | set(want[r])):
             if got[r].get(c, 0) != want[r].get(c, 0):
                 node = tables[r][c][0] if c in tables[r] else fn.ast
-                self.ob('CONTEXT', 'the function returns under the documented conditions only', False, fn.mod, node, fn.qual,
-                        detail='%d return(s) running %s; documented: %d' % (got[r].get(c, 0), c, want[r].get(c, 0)),
-                        key='%s|returns|%s' % (rule, c))
+                self.ob('CONTEXT', inst, False, fn.mod, node, fn.qual,
+                        detail='%d statement(s) `%s`; documented: %d' % (got[r].get(c, 0), c, want[r].get(c, 0)),
+                        key='%s|%s|%s' % (rule, what, c))
 
     # -- anchors ---------------------------------------------------------
     def fn(self, qual):
@@ -286,6 +287,8 @@ def run_rules(cx, pid):
     mod = importlib.import_module('flowlint.props.' + pid.lower())
     try:
         mod.run(cx)
+        from . import rules as _rules
+        _rules.settle_redefinitions(cx)
     except AnchorError:
         raise
     except AnalysisError as e:
